@@ -212,6 +212,17 @@ struct Extractor {
       if (MD->isStatic()) O["st"] = true;
     }
     if (Callee->isNoReturn()) O["noret"] = true;
+    if (const TemplateArgumentList *TA = Callee->getTemplateSpecializationArgs()) {
+      json::Array Args;
+      for (const TemplateArgument &A : TA->asArray()) {
+        std::string S;
+        llvm::raw_string_ostream OS(S);
+        if (A.getKind() == TemplateArgument::Type) OS << ty(A.getAsType());
+        else A.print(PP, OS, true);
+        Args.push_back(OS.str());
+      }
+      O["ta"] = std::move(Args);
+    }
     enqueue(Callee);
     return O;
   }
@@ -536,6 +547,17 @@ struct Extractor {
       if (auto *Pat = FD->getTemplateInstantiationPattern()) F["pattern"] = fnId(Pat);
     }
     if (FD->isOverloadedOperator()) F["op"] = getOperatorSpelling(FD->getOverloadedOperator());
+    if (const TemplateArgumentList *TA = FD->getTemplateSpecializationArgs()) {
+      json::Array Args;
+      for (const TemplateArgument &A : TA->asArray()) {
+        std::string S;
+        llvm::raw_string_ostream OS(S);
+        if (A.getKind() == TemplateArgument::Type) OS << ty(A.getAsType());
+        else A.print(PP, OS, true);
+        Args.push_back(OS.str());
+      }
+      F["targs"] = std::move(Args);
+    }
 
     // CFG
     CFG::BuildOptions BO;
